@@ -223,3 +223,40 @@ package zzengine
 //@ func badShortCircuit
 //@ func badSwitch
 //@   ensures result <= 0
+//@ func okInline
+//@   ensures result >= x
+//@ func badInline
+//@   ensures result > x
+//@ func okInlineStore
+//@   ensures result == 5
+//@ func badInlineStore
+//@   ensures result == 6
+//@ func okInlineFrame
+//@   requires p != nil && q != nil && p != q
+//@   modifies F_S_zzengine_T_x
+//@   ensures result == old(q.x) && p.x == 7
+//@ func badInlineFrame
+//@   requires p != nil && q != nil
+//@   modifies F_S_zzengine_T_x
+//@   ensures result == old(q.x)
+//@ func okInlineTuple
+//@   ensures a >= 0 ==> result == a
+//@   ensures a < 0 ==> result == -1
+//@ func badInlineTuple
+//@   ensures result == a
+//@ func okInlineLoop
+//@   loop 1: invariant 0 <= s
+//@   ensures result >= 0
+//@ func badInlineLoop
+//@   requires p != nil
+//@   modifies F_S_zzengine_T_x
+//@   loop 1: invariant p.x == old(p.x)
+//@   ensures result == old(p.x)
+//@ func badInlineRec
+//@   ensures result >= 0
+//@ func okRenamed
+//@   loop 1: invariant 0 <= i && i <= len(data)
+//@   ensures result == len(data)
+//@ func okLenientImpl
+//@   ensures err == nil ==> capturedVar(f, "v") == a
+//@   ensures a >= 0 ==> err == nil
